@@ -512,37 +512,9 @@ Definition link_propagates (s : site) : bool := propagates VErr 0 s.
 Fixpoint str_mem (x : string) (l : list string) : bool :=
   match l with [] => false | h :: t => String.eqb x h || str_mem x t end.
 
-(* functions from which function f is called, transitively (worklist; the result is CHECKED to be
-   closed in Proofs_Fault, so the algorithm is not trusted) *)
-Fixpoint reach (fuel : nat) (links : list site) (todo seen : list string) : list string :=
-  match fuel with
-  | O => seen
-  | S n =>
-      match todo with
-      | [] => seen
-      | f :: t =>
-          if str_mem f seen then reach n links t seen
-          else reach n links
-                     (map s_func (filter (fun l => String.eqb (s_callee l) f) links) ++ t) (f :: seen)
-      end
-  end.
-
-Definition reach_up (links : list site) (f : string) : list string := reach 4000 links [f] [].
-
 (* R contains f and with a function all its callers *)
 Definition up_closed (links : list site) (f : string) (R : list string) : bool :=
   str_mem f R && forallb (fun l => implb (str_mem (s_callee l) R) (str_mem (s_func l) R)) links.
-
-(* the link sites on the call paths from any API down to f *)
-Definition up_links (links : list site) (f : string) : list site :=
-  let R := reach_up links f in filter (fun l => str_mem (s_callee l) R) links.
-
-Definition api_roots (links : list site) (f : string) : list string :=
-  map s_func (filter s_api (up_links links f)).
-
-(* one I/O site, one class: the function returns an error and so does every caller up to the API *)
-Definition site_class_ok (links : list site) (s : site) (c : errclass) : bool :=
-  io_propagates s c && forallb link_propagates (up_links links (s_func s)).
 
 Definition find_site (id : string) (l : list site) : option site :=
   find (fun s => String.eqb (s_id s) id) l.
